@@ -219,6 +219,10 @@ def hand_scripts():
         dict(id="hand-update-stop-each", steps=[op("create"), op("addKey", stop=0), T, S, op("addKey", stop=1, order=("web", "nuts")), T, S,
                                                  op("addKey", stop=1, order=("nuts", "web")), T, S, op("addKey", stop=2), T, S,
                                                  op("addKey", net="fail"), T, S, op("addKey", retry=True)]),
+        dict(id="hand-conc-create-create", steps=[dict(a="conc", stop=-1, sched=["p1", "p2", "p1", "p2"], ops=[
+            dict(p="p1", op="create", s="s1", net="ok"), dict(p="p2", op="create", s="s1", net="ok")]), T, S]),
+        dict(id="hand-conc-update-update", steps=[op("create"), dict(a="conc", stop=-1, sched=["p1", "p2", "p1", "p2", "p2", "p2", "p1", "p1"], ops=[
+            dict(p="p1", op="addKey", s="s1", net="ok"), dict(p="p2", op="addSvc", s="s1", net="ok")]), T, S]),
         dict(id="hand-two-subjects-blocked", steps=[op("create", s="s2"), op("create", s="s1", stop=0), op("addKey", s="s2", stop=0), T, S,
                                                      op("addKey", s="s2", retry=True)]),
     ]
